@@ -532,6 +532,7 @@ add_constructor('!rec:', _rec_constructor_md)
 
 def _node_representer(dumper, node):
     from .nodes.bind import BindNode
+    from .nodes.function import FunctionNode
     tag, metadata, data = node.ayns.represent()
     if data is None:
         assert not tag
@@ -570,6 +571,10 @@ def _node_representer(dumper, node):
         parent = parent_metadata.get(f, None) if parent_metadata else None
         default = type_defaults[f]
         if current is not None:
+            # (a function node gives itself an explicit "delete" when it is constructed: for it, what the
+            # parent hands down is never in effect and cannot stand in for a flag left out here)
+            if f == 'delete' and isinstance(node, FunctionNode):
+                parent = None
             if current == parent or current == default:
                 del metadata[f]
         else:
